@@ -19,6 +19,35 @@ import (
 
 var floatMantissas = []float64{1, 1.5, 9.999999, 2.5000001, 7}
 
+// derefAll renders the byte slices ([]byte decoded from base64 strings) reachable from v without
+// passing through another slice or a map: encoding/json gives each of them storage of its own on
+// every decode, whereas the reuse of the backing arrays of other slices is documented behaviour
+// (and its extent depends on capacity growth, which differs between Go releases).
+func derefAll(v reflect.Value) any {
+	switch v.Kind() {
+	case reflect.Pointer, reflect.Interface:
+		if v.IsNil() {
+			return nil
+		}
+		return derefAll(v.Elem())
+	case reflect.Struct:
+		out := map[string]any{}
+		for i := 0; i < v.NumField(); i++ {
+			if v.Type().Field(i).IsExported() {
+				if x := derefAll(v.Field(i)); x != nil {
+					out[v.Type().Field(i).Name] = x
+				}
+			}
+		}
+		return out
+	case reflect.Slice:
+		if v.Type().Elem().Kind() == reflect.Uint8 && !v.IsNil() {
+			return fmt.Sprintf("%x", v.Bytes())
+		}
+	}
+	return nil
+}
+
 func syntaxOffset(err error) (int64, bool) {
 	switch e := err.(type) {
 	case *ij.SyntaxError:
@@ -607,6 +636,151 @@ func init() {
 				for _, v := range []any{f, f32, &f, []any{f, f32}, map[string]float64{"k": f}, map[string]any{"k": f32}, quoted{Q: f, P: &f, F: f32, N: f, O: f, PF: &f32}, &quoted{Q: f}, []float32{f32}} {
 					judgeMarshal(c, v, "float-spelling")
 				}
+			}},
+			{Name: "token-and-decode-walks", Count: n(10000, 600000), Run: func(c *core.Ctx, idx int) {
+				// the usual way to read a big array or object: Token() opens it, then More()/Decode() element by
+				// element into a typed target - with elements that do not fit the target, after which the caller
+				// keeps reading - then Token() closes it; every step against encoding/json
+				elemT := []reflect.Type{reflect.TypeOf(0), reflect.TypeOf(""), reflect.TypeOf([]byte(nil)), reflect.TypeOf(map[string]int(nil)), reflect.TypeOf(struct{ A int }{}), reflect.TypeOf((*any)(nil)).Elem()}[c.R.Intn(6)]
+				var parts []string
+				for k := c.R.Intn(6); k > 0; k-- {
+					if c.R.Intn(3) == 0 {
+						parts = append(parts, prof.Value(c.R, 1)) // may not fit
+					} else {
+						parts = append(parts, genTextFor(c.R, elemT, 2))
+					}
+				}
+				text := "[" + strings.Join(parts, ",") + "]"
+				if c.R.Intn(3) == 0 {
+					var kv []string
+					for i, pt := range parts {
+						kv = append(kv, fmt.Sprintf("\"k%d\":%s", i, pt))
+					}
+					text = "{" + strings.Join(kv, ",") + "}"
+				}
+				if c.R.Intn(8) == 0 {
+					text = gen.Mutate(c.R, text, "")
+				}
+				fd, sd := ij.NewDecoder(strings.NewReader(text)), stdjson.NewDecoder(strings.NewReader(text))
+				d := map[string]any{"input": clip(text, 900), "element_type": elemT.String()}
+				for step := 0; step < 40; step++ {
+					useDecode := step > 0 && c.R.Intn(3) > 0
+					var ftok ij.Token
+					var fe, se error
+					var stok stdjson.Token
+					fv, sv := reflect.New(elemT), reflect.New(elemT)
+					pn := mon.Try(func() {
+						if useDecode && fd.More() {
+							fe = fd.Decode(fv.Interface())
+						} else {
+							useDecode = false
+							ftok, fe = fd.Token()
+						}
+					})
+					if useDecode {
+						if !sd.More() {
+							d["step"] = step
+							c.Violation("walk:More-differs", d)
+							return
+						}
+						se = sd.Decode(sv.Interface())
+					} else {
+						stok, se = sd.Token()
+					}
+					c.Eval(1)
+					d["step"], d["fork_error"], d["std_error"] = step, errText(fe), errText(se)
+					if pn != nil {
+						d["panic"] = panicDetail(pn)
+						c.Violation("walk:"+pn.Sig(), d)
+						return
+					}
+					if (fe == nil) != (se == nil) || fd.InputOffset() != sd.InputOffset() || fd.More() != sd.More() {
+						d["fork_offset"], d["std_offset"] = fd.InputOffset(), sd.InputOffset()
+						c.Violation("walk:error-offset-or-More-differs", d)
+						return
+					}
+					if useDecode {
+						toStdNumbers(fv.Elem())
+						if !reflect.DeepEqual(fv.Interface(), sv.Interface()) {
+							c.Violation("walk:decoded-element-differs", d)
+							return
+						}
+					} else {
+						var fn any = ftok
+						switch t := ftok.(type) {
+						case ij.Delim:
+							fn = stdjson.Delim(t)
+						case ij.Number:
+							fn = stdjson.Number(t)
+						}
+						if fn2, ok := fn.(float64); ok {
+							if sn, ok2 := stok.(float64); !ok2 || sn != fn2 {
+								c.Violation("walk:token-differs", d)
+								return
+							}
+						} else if !reflect.DeepEqual(fn, any(stok)) {
+							d["fork_token"], d["std_token"] = fmt.Sprintf("%#v", ftok), fmt.Sprintf("%#v", stok)
+							c.Violation("walk:token-differs", d)
+							return
+						}
+					}
+					if fe != nil {
+						if _, syn := fe.(*ij.SyntaxError); syn || fe == io.EOF {
+							break
+						}
+					}
+				}
+				c.Count("walk:ok")
+			}},
+			{Name: "targets-decoded-into-again", Count: n(10000, 600000), Run: func(c *core.Ctx, idx int) {
+				// one variable, several decodes (the usual `var rec T; for dec.More() { dec.Decode(&rec); keep(rec) }`):
+				// what was kept from an earlier decode must not change when the variable is decoded into again
+				t := fieldTypes[c.R.Intn(len(fieldTypes))]
+				if c.R.Intn(2) == 0 {
+					t = reflect.StructOf([]reflect.StructField{{Name: "ID", Type: reflect.TypeOf(0)}, {Name: "Blob", Type: reflect.TypeOf([]byte(nil))}, {Name: "L", Type: reflect.TypeOf([]int(nil))}, {Name: "M", Type: reflect.TypeOf(map[string]int(nil))}, {Name: "P", Type: reflect.TypeOf((*string)(nil))}})
+				}
+				fv, sv := reflect.New(t), reflect.New(t)
+				var fkept, skept []string
+				d := map[string]any{"type": clip(t.String(), 400)}
+				var texts []string
+				for k := 0; k < 4; k++ {
+					text := genTextFor(c.R, t, 3)
+					texts = append(texts, clip(text, 300))
+					var ferr error
+					pn := mon.Try(func() { ferr = ij.Unmarshal([]byte(text), fv.Interface()) })
+					serr := stdUnmarshalNumber([]byte(text), sv.Interface())
+					c.Eval(1)
+					d["inputs"] = texts
+					if pn != nil {
+						d["panic"] = panicDetail(pn)
+						c.Violation("again:"+pn.Sig(), d)
+						return
+					}
+					if (ferr == nil) != (serr == nil) {
+						d["fork_error"], d["std_error"] = errText(ferr), errText(serr)
+						c.Violation("again:error-presence-differs", d)
+						return
+					}
+					// keep shallow copies (as `out = append(out, rec)` does) and their rendering now
+					fc, sc2 := reflect.New(t).Elem(), reflect.New(t).Elem()
+					fc.Set(fv.Elem())
+					sc2.Set(sv.Elem())
+					fkept = append(fkept, fmt.Sprintf("%+v", derefAll(fc)))
+					skept = append(skept, fmt.Sprintf("%+v", derefAll(sc2)))
+					defer func(fc, sc2 reflect.Value, i int) {
+						if c.NViolations() > 0 {
+							return
+						}
+						if now := fmt.Sprintf("%+v", derefAll(fc)); now != fkept[i] {
+							// encoding/json is the yardstick: if its kept copy changed in the same way, that is shared behaviour
+							if snow := fmt.Sprintf("%+v", derefAll(sc2)); snow == skept[i] {
+								d["kept_after_decode"], d["kept_now"], d["decode_index"] = clip(fkept[i], 600), clip(now, 600), i
+								c.Violation("again:value-kept-from-an-earlier-decode-changed", d)
+							}
+						}
+					}(fc, sc2, k)
+				}
+				c.Count("again:ok")
 			}},
 			{Name: "numbers-and-misuse", Count: n(6000, 360000), Run: func(c *core.Ctx, idx int) {
 				// Number accessors against encoding/json's, and the misuse errors (nil / non-pointer target)
